@@ -7,6 +7,7 @@ import SaModel.Lemmas.C08Explore
 import SaModel.Lemmas.C08Loop
 import SaModel.Lemmas.C08NotWalkable
 import SaModel.Lemmas.C08SAgree
+import SaModel.Lemmas.C08GDone
 /-
 C08 — tracing yields the documented mapping; from_type and from_samples agree.
 Model: SaModel/Trace/{Tracer,FromSamples,FromType}.lean.  Documented mapping: SaModel/Trace/Mapping.lean (`Spec.mapping`,
@@ -23,6 +24,11 @@ Proved for ALL inputs:
   `C08_from_type_budget`, `C08_from_type_not_walkable`, `C08_from_type_recursive` (depth limit);
 * `C08_agree`: `fromSamples c o (covering ty) = fromType c o ty` for every walkable type with unique field names whose
   passes fit the budget (enums included).
+* `C08_agree_all`: `fromSamples c o xs = fromType c o ty` for EVERY covering collection `xs` (`Covers o ty xs`,
+  SaModel/Lemmas/C08Covers.lean: values of the type in any order, with any repetitions and any extra values, that
+  together exercise every variant, a `Some` of every `Option`, an element of every sequence / map) — same hypotheses as
+  `C08_agree`; `C08_sample_invariant` (the tracer after ANY values `xs` of the type is `sstate ty xs`);
+  `C08_agree_map_as_struct_false`, `C08_agree_guess_dates_needed`: the two documented exclusions are real.
 Kept as a kernel-evaluated sanity table: `C08_from_type_and_agree_on_zoo` (16 type descriptions × 10 option settings).
 -/
 namespace SaModel.Props.C08
@@ -430,6 +436,89 @@ example :
       (.cons "m" (.map .string (.struct "I" (.cons "x" .f32 .nil))) (.cons "deep" tDeep .nil))))
     walkable o "$" ty = true ∧ uniqueNames ty = true ∧ smallEnums ty = true ∧ passes ty = 10 ∧ width ty = 18 ∧
       (fromType .fixed o ty).isOk = true := by
+  decide +kernel
+
+/-! ### `from_samples` on ANY covering collection = `from_type` -/
+
+/-- `C08_sample_invariant`: the state of `from_samples` after ANY values of the type.  `sstate o n p nl ty xs`
+(SaModel/Lemmas/C08GState.lean) is written down from the type and the values found at each position (the payloads of the
+`Some`s, all elements of all sequences, the i-th components, the values of field `f`, the payloads of the samples of
+variant `i`): a position that has seen no value is `unknown`, an `Option` position is nullable as soon as it has seen a
+value, a union node has a slot for every variant up to the last one that occurred.  Absorbing any value `x` of the type
+(`hasTy o x ty`) into the tracer of `xs` gives the tracer of `xs ++ [x]` — no condition on `xs`. -/
+theorem C08_sample_invariant (c : Code) (o : Options) (ty : Ty) (n p : String) (nl : Bool) (xs : List SVal) (x : SVal)
+    (hw : walkable o p ty = true) (hu : uniqueNames ty = true) (hs : smallEnums ty = true) (hx : hasTy o x ty = true) :
+    absorb c o (sstate o n p nl ty xs) x = .ok (sstate o n p nl ty (xs ++ [x])) :=
+  absorb_gen c o ty n p nl xs x hw hu hs hx
+
+/-- `C08_agree_all`: for EVERY type description that can be walked, with unique field names (enums with all four variant
+kinds and nested enums included), all options whose budget covers the passes the type needs, and EVERY covering sample
+collection `xs` — `Covers o ty xs` (SaModel/Lemmas/C08Covers.lean): every sample is a value of the type (`hasTy`: the
+serde calls a derived `Serialize` makes, struct fields in declaration order, variant index and name of the declaration,
+`None` and `Some`, sequences and maps of any length; strings that `guess_dates` would read as dates are not samples of
+`String`), and together they cover it (`covers`, recursive over the type: a value at every leaf; the `Some` payloads cover
+`T` of `Option<T>`; all elements together cover `T` of `Vec<T>`; all keys / values cover `K` / `V`; every tuple position
+and struct field is covered by the values found there; EVERY variant of an enum occurs and its payloads cover its
+payload type) — in ANY order, with ANY repetitions and ANY extra values of the type (`None`, empty collections, further
+variants): `from_samples` gives exactly what `from_type` gives — the same fields or the same error (null-only field,
+overwrite errors, root not a struct, more than 128 variants).  Both code versions.
+Hypotheses that remain, all necessary: `walkable` (depth limit; a map under `map_as_struct`, the default:
+`C08_agree_map_as_struct_false`; empty enum), `uniqueNames` (`from_samples` finds a field by name, a derive by position),
+`smallEnums` (≤ 2^20 variants, the allocation bound of the model of `ensure_variant`, finding #29), the budget
+(`from_samples` has none), and inside `Covers` the `guess_dates` clause (`C08_agree_guess_dates_needed`). -/
+theorem C08_agree_all (c : Code) (o : Options) (ty : Ty) (xs : List SVal) (hw : walkable o "$" ty = true)
+    (hu : uniqueNames ty = true) (hs : smallEnums ty = true) (hb : passes ty ≤ o.from_type_budget)
+    (hc : Covers o ty xs) : fromSamples c o xs = fromType c o ty :=
+  agree_covers c o ty xs hw hu hs hb hc
+
+/-- a record type with an `Option<Vec<String>>`, a tuple, a map (traced as a map) and an enum with the four variant kinds
+whose newtype variant holds another `Option` -/
+def tCov : Ty :=
+  .struct "S" (.cons "a" (.option (.vec .string)) (.cons "t" (.tuple (.cons (.int .u8) (.cons .bool .nil)))
+    (.cons "m" (.map .string (.int .i32))
+      (.cons "e" (.enum "E" (.unit "U" (.newtype "N" (.option .f32) (.tuple "T" (.cons .bool .nil)
+        (.struct "R" (.cons "x" (.option (.int .i64)) .nil) .nil))))) .nil))))
+
+def tCovSample (a m e : SVal) : SVal :=
+  .record "S" (.cons "a" 0 a (.cons "t" 0 (.tuple (.cons (.int .u8 7) (.cons (.bool false) .nil)))
+    (.cons "m" 0 m (.cons "e" 0 e .nil))))
+
+/-- six samples, not in declaration order of the variants, with a `None`, an empty sequence, an empty map, a map with two
+entries, a repeated variant, and `Some` / elements / entries spread over different samples -/
+def tCovSamples : List SVal :=
+  [ tCovSample .none (.map .nil) (.structVariant "E" 3 "R" (.cons "x" 0 .none .nil)),
+    tCovSample (.some (.seq .nil)) (.map (.cons (.str "k") (.int .i32 1) (.cons (.str "l") (.int .i32 2) .nil)))
+      (.newtypeVariant "E" 1 "N" .none),
+    tCovSample (.some (.seq (.cons (.str "v") (.cons (.str "w") .nil)))) (.map .nil) (.unitVariant "E" 0 "U"),
+    tCovSample .none (.map .nil) (.newtypeVariant "E" 1 "N" (.some (.f32 0))),
+    tCovSample .none (.map .nil) (.structVariant "E" 3 "R" (.cons "x" 0 (.some (.int .i64 (-5))) .nil)),
+    tCovSample .none (.map .nil) (.tupleVariant "E" 2 "T" (.cons (.bool true) .nil)) ]
+
+/-- non-vacuity of `C08_agree_all`: the hypotheses hold for `tCovSamples` — which is neither the canonical list nor a
+permutation of it — both tracers succeed, and dropping the last sample (the only one of variant `T`) loses coverage -/
+example :
+    let o : Options := { map_as_struct := false, allow_null_fields := true }
+    walkable o "$" tCov = true ∧ uniqueNames tCov = true ∧ smallEnums tCov = true ∧ passes tCov ≤ o.from_type_budget ∧
+      Covers o tCov tCovSamples ∧ tCovSamples ≠ covering tCov ∧ (fromType .fixed o tCov).isOk = true ∧
+      ¬ Covers o tCov tCovSamples.dropLast := by
+  decide +kernel
+
+/-- the exclusion of maps under `map_as_struct` (the default) is real: `from_type` refuses the type, `from_samples` traces
+the map as a struct whose fields are the KEYS of the samples — the two tracers do not agree there, as documented -/
+theorem C08_agree_map_as_struct_false :
+    let ty : Ty := .struct "S" (.cons "m" (.map .string (.int .i32)) .nil)
+    let xs : List SVal := [.record "S" (.cons "m" 0 (.map (.cons (.str "k") (.int .i32 1) .nil)) .nil)]
+    Covers {} ty xs ∧ (fromType .fixed {} ty).isOk = false ∧ (fromSamples .fixed {} xs).isOk = true := by
+  decide +kernel
+
+/-- the `guess_dates` clause of `hasTy` is needed: a string sample that looks like a date is traced as `Date32`, which
+`from_type` cannot know -/
+theorem C08_agree_guess_dates_needed :
+    let o : Options := { guess_dates := true }
+    let ty : Ty := .struct "S" (.cons "d" .string .nil)
+    let xs : List SVal := [.record "S" (.cons "d" 0 (.str "2020-12-24") .nil)]
+    covers ty xs = true ∧ ¬ Covers o ty xs ∧ Covers {} ty xs ∧ (fromSamples .fixed o xs).isOk = true ∧
+      fromSamples .fixed o xs ≠ fromType .fixed o ty := by
   decide +kernel
 
 /-! ### the zoo: `from_type` = documented mapping = `from_samples` on covering samples (kernel evaluation) -/
